@@ -119,6 +119,8 @@ pub fn headermap_fields(h: &http::HeaderMap) -> Vec<(Vec<u8>, Vec<u8>)> {
 pub struct MsgObs {
     /// "ok" | error class | "" (pending)
     pub head: String,
+    /// answers of the calls made after the first recv_data error (recv_data again, then recv_trailers), when enabled
+    pub after_error: Vec<String>,
     pub head_info: String,
     /// what the application was given, piece by piece: (method, scheme, authority, path and query) of a request
     pub req_target: Option<(String, Option<String>, Option<String>, Option<Vec<u8>>)>,
@@ -149,6 +151,18 @@ pub fn shared<T>(v: T) -> Shared<T> {
 thread_local! {
     static APP_PAUSES: std::cell::Cell<bool> = const { std::cell::Cell::new(false) };
     static INLINE_HANDLERS: std::cell::Cell<bool> = const { std::cell::Cell::new(false) };
+    static RETRY_AFTER_ERROR: std::cell::Cell<bool> = const { std::cell::Cell::new(false) };
+}
+
+/// With this on, the receive patterns do not stop at the first error of recv_data: they call recv_data twice more
+/// (an application that retries, or a combinator polled once more) and record the answers in
+/// `MsgObs::after_error`. What those calls may NOT do is turn a stream-level problem into a connection error.
+pub fn set_retry_after_error(on: bool) {
+    RETRY_AFTER_ERROR.with(|c| c.set(on));
+}
+
+fn retry_after_error() -> bool {
+    RETRY_AFTER_ERROR.with(|c| c.get())
 }
 
 /// With this on, `server_main` handles every request INSIDE its accept loop (the sequential loop of the examples):
@@ -222,9 +236,27 @@ pub async fn server_handler(
                 break;
             }
             Err(e) => {
-                let mut o = out.borrow_mut();
-                o.body_end = stream_class(&e);
-                o.stage = "done".into();
+                {
+                    let mut o = out.borrow_mut();
+                    o.body_end = stream_class(&e);
+                }
+                if retry_after_error() {
+                    let a = match stream.recv_data().await {
+                        Ok(Some(_)) => "data".to_string(),
+                        Ok(None) => "none".to_string(),
+                        Err(e) => stream_class(&e),
+                    };
+                    out.borrow_mut().after_error.push(a);
+                    // (recv_trailers is not retried: the API wants the body read to its end first, and says so with a
+                    // panic - calling it after a failed recv_data is the application's mistake, not the peer's)
+                    let b = match stream.recv_data().await {
+                        Ok(Some(_)) => "data".to_string(),
+                        Ok(None) => "none".to_string(),
+                        Err(e) => stream_class(&e),
+                    };
+                    out.borrow_mut().after_error.push(b);
+                }
+                out.borrow_mut().stage = "done".into();
                 return;
             }
         }
@@ -251,10 +283,19 @@ pub async fn server_handler(
             stream.finish().await
         }
         .await;
+        let failed = r.is_err();
         out.borrow_mut().sent = match r {
             Ok(()) => "ok".into(),
             Err(e) => stream_class(&e),
         };
+        if failed && retry_after_error() {
+            // an application that tidies up: finish() after a send call has failed
+            let a = match stream.finish().await {
+                Ok(()) => "finish:ok".to_string(),
+                Err(e) => stream_class(&e),
+            };
+            out.borrow_mut().after_error.push(a);
+        }
     }
     out.borrow_mut().stage = "done".into();
 }
@@ -294,9 +335,27 @@ pub async fn client_reader(mut stream: CliStream, out: Shared<MsgObs>) {
                 break;
             }
             Err(e) => {
-                let mut o = out.borrow_mut();
-                o.body_end = stream_class(&e);
-                o.stage = "done".into();
+                {
+                    let mut o = out.borrow_mut();
+                    o.body_end = stream_class(&e);
+                }
+                if retry_after_error() {
+                    let a = match stream.recv_data().await {
+                        Ok(Some(_)) => "data".to_string(),
+                        Ok(None) => "none".to_string(),
+                        Err(e) => stream_class(&e),
+                    };
+                    out.borrow_mut().after_error.push(a);
+                    // (recv_trailers is not retried: the API wants the body read to its end first, and says so with a
+                    // panic - calling it after a failed recv_data is the application's mistake, not the peer's)
+                    let b = match stream.recv_data().await {
+                        Ok(Some(_)) => "data".to_string(),
+                        Ok(None) => "none".to_string(),
+                        Err(e) => stream_class(&e),
+                    };
+                    out.borrow_mut().after_error.push(b);
+                }
+                out.borrow_mut().stage = "done".into();
                 return;
             }
         }
